@@ -101,6 +101,8 @@ def leaf_val(roles):
             return True
         if text == '!':
             return False
+        if ':' not in text:
+            return False        # not of the form kind:match: behaves as `!`
         return text.split(':', 1)[1] in roles
     return val
 
@@ -227,7 +229,7 @@ def run_sequences(maxlen, seed=0, variants=True):
 
 
 def list_rule_cases():
-    atoms = ['role:r0', 'role:r1', '@', '!']
+    atoms = ['role:r0', 'role:r1', '@', '!', '', 'nocolon']     # the last two are not of the form kind:match: they deny
     shapes = []
     for outer in range(0, 3):
         for inner_sizes in itertools.product(range(0, 3), repeat=outer):
@@ -303,10 +305,55 @@ def c01(tier='quick', seed=0):
         ev += 1
         if decide(_parser.parse_rule(text), set()) is not want:
             viol.append({'key': repr(text), 'detail': '%r must decide %r' % (text, want)})
+    # operands that merely LOOK like keywords: attribute checks whose left side starts with (or is a case variant of a
+    # word containing) and / or / not are leaves like any other
+    kwlike = ['organization_id:y', 'origin:y', 'notes:y', 'android:y', 'ORder:y', 'Nothing:y', 'ANDy:y', 'or_else:y', 'not_x:y',
+              'orange.colour:y', 'band:y', 'knot:y']
+    from oslo_policy import _parser, _checks
+    rng = random.Random(seed)
+    for k in range(1, 7):
+        for seq in itertools.product(SYMS, repeat=k):
+            if seq.count('L') == 0 or seq.count('L') > 3:
+                continue
+            names = rng.sample(kwlike, seq.count('L'))
+            it = iter(names)
+            toks = [next(it) if t == 'L' else t for t in seq]
+            try:
+                ast = ref_parse(toks)
+            except Reject:
+                continue
+            ev += 1
+            nt += 1
+            text = ' '.join(toks)
+            chk = _parser.parse_rule(text)
+            for bits in itertools.product([False, True], repeat=len(names)):
+                creds = {}
+                for nme, b in zip(names, bits):
+                    kind = nme.split(':')[0]
+                    cur = creds
+                    parts = kind.split('.')
+                    for p_ in parts[:-1]:
+                        cur = cur.setdefault(p_, {})
+                    cur[parts[-1]] = 'y' if b else 'n'
+                truth = dict(zip(names, bits))
+                want = ref_eval(ast, lambda t: truth[t])
+                try:
+                    got = bool(_checks._check(chk, {}, creds, None, None))
+                except Exception as e:      # noqa
+                    got = 'raised %s' % type(e).__name__
+                if got != want:
+                    viol.append({'key': text, 'detail': 'rule %r with %r decided %r, documented semantics give %r' % (
+                        text, truth, got, want)})
+                    break
+            if len(viol) >= 5:
+                break
+        if len(viol) >= 5:
+            break
     return {'name': 'rule-language small scope', 'evaluations': ev, 'distinct_nontrivial': nt,
             'rule': 'every symbol sequence of length <= %d over {(,),and,or,not,leaf} (leaves are distinct role checks), '
                     'each under all truth assignments, accepted ones also in 5 lexical variants and through '
-                    'print/re-parse; %d list-of-lists shapes; non-trivial = sentences of the grammar plus sequences the '
+                    'print/re-parse; sentences up to length 6 again with attribute checks whose left side looks like a keyword '
+                    '(organization_id, origin, notes, android, ORder, ...); %d list-of-lists shapes; non-trivial = sentences of the grammar plus sequences the '
                     'parser did not map to an always-deny check' % (n, lv),
             'exhaustive': True, 'samples': samples, 'violations': viol[:5]}
 
@@ -372,6 +419,15 @@ def c02(tier='quick', seed=0):
         r = check_non_rule(v)
         if r:
             viol.append({'key': 'parse_rule(%r)' % (v,), 'detail': r})
+    # list-of-lists rules holding leaves that are not of the form kind:match (blank strings, words without a colon):
+    # such a leaf behaves as `!`, it is never skipped
+    for rule in ([['']], [['', '']], [[''], []], [['role:r0'], ['']], [['role:r0', '']], [['@', '']], ['', ['']], [['nocolon']],
+                 [['@'], ['nocolon', '@']], ['', 'role:r0'], [['', 'role:r0'], ['role:r1']], [[' ']], [['@', ' ']]):
+        ev += 1
+        nt += 1
+        r = check_list_rule(rule)
+        if r:
+            viol.append({'key': 'parse_rule(%r)' % (rule,), 'detail': r})
     return {'name': 'malformed rules small scope', 'evaluations': ev, 'distinct_nontrivial': nt,
             'rule': 'every symbol sequence of length <= %d that the grammar rejects, hand-picked and random junk '
                     'strings, and %d non-rule values (null, booleans, numbers, mappings, lists holding non-strings); '
@@ -494,7 +550,8 @@ def c15(tier='quick', seed=0):
         k = rng.randint(0, 6)
         d = {}
         for j in range(k):
-            d['n%d' % j] = rng.choice(['', '@', [], rand_expr(rng, 3, leaves)])
+            d['n%d' % j] = rng.choice(['', '@', [], rand_expr(rng, 3, leaves), [['role:r0', 'role:r1'], ['role:r2']], [['']],
+                                       [['role:r0', ''], ['@']], [[], ['role:r1']], ['role:r0', ['role:r1', 'nocolon']]])
         ev += 1
         nt += 1
         R = policy.Rules.from_dict(d)
